@@ -22,6 +22,10 @@ PRES = [('uint8', 0, 1.0), ('int16', -2, 1.0), ('float32', -2, 0.25), ('float64'
 CLS = {'f': 'ANOVADistinguisher', 'nicv': 'NICVDistinguisher', 'snr': 'SNRDistinguisher'}
 
 
+REFUSALS = [0]
+MODIFIED = []          # filled by run_obj when an update changed the arrays it was given
+
+
 def run_obj(cls, precision, t, d, classes, split=False):
     import scared
     o = getattr(scared, cls)(partitions=None if classes is None else np.array(classes, dtype='int32'), precision=precision)
@@ -29,14 +33,31 @@ def run_obj(cls, precision, t, d, classes, split=False):
         # rows sorted by class value: the classes of the second part are still empty when the first result is asked for
         order = np.argsort(d[:, 0], kind='stable') if classes is not None else np.arange(len(t))
         cut = max(1, len(t) // 2)
-        o.update(t[order[:cut]], d[order[:cut]])
+        ta, da, tb, db = t[order[:cut]], d[order[:cut]], t[order[cut:]], d[order[cut:]]
+        keep = [x.copy() for x in (ta, da, tb, db)]
+        o.update(ta, da)
         try:
             o.compute()
         except Exception:     # noqa - a result may be undefined at that point; only the final one is compared
             pass
-        o.update(t[order[cut:]], d[order[cut:]])
+        # a batch the object refuses (half-precision traces: no compiled kernel takes them) is not part of "the traces": nothing of it may be counted
+        REFUSALS[0] += 1
+        if REFUSALS[0] % 400 == 1:        # (every failed kernel specialisation costs a compilation attempt: a sample of the split presentations)
+            try:
+                o.update(tb.astype('float16'), db)
+                raise AssertionError('harness: half-precision traces were accepted')
+            except AssertionError:
+                raise
+            except Exception:       # noqa - the refusal itself
+                pass
+        o.update(tb, db)
+        if not all(np.array_equal(x, y) for x, y in zip((ta, da, tb, db), keep)):
+            MODIFIED.append('split')
     else:
+        t0, d0 = t.copy(), d.copy()
         o.update(t, d)
+        if not (np.array_equal(t, t0) and np.array_equal(d, d0)):
+            MODIFIED.append('single')
     first = np.asarray(o.compute())
     again = np.asarray(o.compute())              # asking again, without new data, must give the same statistic
     if first.shape != again.shape or not np.array_equal(first, again, equal_nan=True):
@@ -46,6 +67,10 @@ def run_obj(cls, precision, t, d, classes, split=False):
 
 def check_entry(chk, metric, precision, got, r, kappa, ctx):
     cls = CLS[metric]
+    if MODIFIED:
+        del MODIFIED[:]
+        chk.violation(f'{cls}:the arrays given to update are left as they were (the next distinguisher is fed the same arrays)', dict(ctx, property='C04', cls=cls, precision=precision),
+                      f'{cls}/{precision}: update modified the traces / data arrays it was given')
     want = st.frac(r)
     chk.count((metric, precision, ctx.get('key')), nontrivial=True)
     ok = st.agree(got, want, 0.0, precision, c=st.C_TOL * kappa) if want is not None else bool(np.isnan(got))
